@@ -210,6 +210,8 @@ def check_c13(prop, tier, seed):
     if pr.returncode != 0:
         raise ToolError("dist_cases failed: %s" % pr.stdout[-2000:])
     s = json.loads(pr.stdout.strip().splitlines()[-1])
+    if s.get("aborted"):
+        raise ToolError("dist_cases gave up after %d samplers did not return: %s" % (s["hangs"], recs))
     cfg = vlib.tlc_cfg("TSpec", {}).replace("CONSTANTS\n", "")
     tv = vlib.trace_validate("DistTrace", cfg, recs, wd, "tv", shards=8)
     if tv["incomplete"]:
